@@ -18,7 +18,7 @@ fn try_compile_on(schema_name: &str, text: &str) -> Result<bool, String> {
         .map_err(|p| p.downcast_ref::<String>().cloned().or_else(|| p.downcast_ref::<&str>().map(|s| s.to_string())).unwrap_or_default())
 }
 
-// @grid c10_grid_frontend_never_panics tier=quick bound="about 15000 documents: 0..3 operations and fragments; every sequence of up to 3 directives from a 17-element alphabet (valid, duplicated, malformed arguments) on a property, on an edge and on a fold; the repository's parse-error / frontend-error corpora; every kind of field name (property, list property, edge, parameterized edge, __typename, __schema, type name, unknown) x 8 selection shapes x 8 decorations at the root, nested, under a coercion and inside a fold; 22 filter operators x 14 property types x 8 argument forms (variables, tags of 5 types, malformed) on the nullables schema, shared variables, count filters; 18 literal kinds as edge and directive arguments in 6 positions; 12 x 12 pairs of outputs with one name in 3 scopes; filters on a 30-deep list type; 19 fragment-spread / inline-fragment positions x 4 document shapes; 12 erroneous selections alone, before, after and inside a fold next to 6 valid siblings that use an outer tag, and in pairs; truncations of valid queries at every byte"
+// @grid c10_grid_frontend_never_panics tier=quick bound="about 15000 documents: 0..3 operations and fragments; every sequence of up to 3 directives from a 17-element alphabet (valid, duplicated, malformed arguments) on a property, on an edge and on a fold; the repository's parse-error / frontend-error corpora; every kind of field name (property, list property, edge, parameterized edge, __typename, __schema, type name, unknown) x 8 selection shapes x 8 decorations at the root, nested, under a coercion and inside a fold; 22 filter operators x 14 property types x 8 argument forms (variables, tags of 5 types, malformed) on the nullables schema, shared variables, count filters; 18 literal kinds as edge and directive arguments in 6 positions; 12 x 12 pairs of outputs with one name in 3 scopes; filters on a 30-deep list type; 19 fragment-spread / inline-fragment positions x 4 document shapes; 12 erroneous selections alone, before, after and inside a fold next to 6 valid siblings that use an outer tag, and in pairs; 3000 seeded random documents (VERIF_SEED); truncations of valid queries at every byte"
 // @ob for every document of the family, compiling against a valid schema returns Ok or Err and does not panic
 pub(crate) fn c10_grid_frontend_never_panics() {
     let mut n = 0u64;
@@ -61,7 +61,7 @@ pub(crate) fn c10_grid_frontend_never_panics() {
         check(&format!("directives after a fold count `{s}`"), &format!(r#"{{ Number(max: 3) {{ value @output(name: "v0") multiple(max: 2) @fold @transform(op: "count") {s} {{ value @output(name: "mv") }} }} }}"#), &mut failures);
         n += 4;
     }
-    // 3. the repository's error corpora and every kind of field name (property, list property, edge, parameterized edge, __typename, __schema, type name, unknown) x 8 selection shapes x 8 decorations at the root, nested, under a coercion and inside a fold; 22 filter operators x 14 property types x 8 argument forms (variables, tags of 5 types, malformed) on the nullables schema, shared variables, count filters; 18 literal kinds as edge and directive arguments in 6 positions; 12 x 12 pairs of outputs with one name in 3 scopes; filters on a 30-deep list type; 19 fragment-spread / inline-fragment positions x 4 document shapes; 12 erroneous selections alone, before, after and inside a fold next to 6 valid siblings that use an outer tag, and in pairs; truncations of valid queries
+    // 3. the repository's error corpora and every kind of field name (property, list property, edge, parameterized edge, __typename, __schema, type name, unknown) x 8 selection shapes x 8 decorations at the root, nested, under a coercion and inside a fold; 22 filter operators x 14 property types x 8 argument forms (variables, tags of 5 types, malformed) on the nullables schema, shared variables, count filters; 18 literal kinds as edge and directive arguments in 6 positions; 12 x 12 pairs of outputs with one name in 3 scopes; filters on a 30-deep list type; 19 fragment-spread / inline-fragment positions x 4 document shapes; 12 erroneous selections alone, before, after and inside a fold next to 6 valid siblings that use an outer tag, and in pairs; 3000 seeded random documents (VERIF_SEED); truncations of valid queries
     for dir in ["parse_errors", "frontend_errors"] {
         let mut names: Vec<String> = std::fs::read_dir(format!("test_data/tests/{dir}")).unwrap().filter_map(|e| e.ok()).map(|e| e.file_name().to_string_lossy().to_string()).filter(|n| n.ends_with(".graphql.ron")).collect();
         names.sort();
@@ -208,6 +208,15 @@ pub(crate) fn c10_grid_frontend_never_panics() {
         }
         for b2 in bad { check(&format!("two erroneous selections `{b}` `{b2}`"), &root(&format!("{b} {}", b2.replace("e1", "f1").replace("e2", "f2").replace("dup", "dup2").replace("inner", "inner2"))), &mut failures); n += 1; }
     }
+    // 7. seeded random documents (nested scopes, every decoration and operator; a third deliberately ill-typed)
+    let mut accepted = 0u64;
+    for (i, d) in crate::verif_random::documents(3000, 10, 35).into_iter().enumerate() {
+        if i % 100 == 0 { vk::grid_case(format_args!("random documents {}..", i)); }
+        match try_compile(&d.query) { Ok(true) => accepted += 1, Ok(false) => {}, Err(m) => { failures.insert(format!("random document `{}`: panic({})", d.query, m.lines().next().unwrap_or(""))); } }
+        n += 1;
+    }
+    eprintln!("VERIF-GRID-NOTE random documents accepted by the frontend: {accepted} of 3000");
+    assert!(accepted >= 300, "vacuity: the random generator produced only {accepted} accepted documents of 3000");
     vk::grid_done("c10_grid_frontend_never_panics", n);
     if !failures.is_empty() {
         // one entry per panic message: how many documents hit it and the first of them
